@@ -2629,6 +2629,12 @@ public:
             operator-=(bv);
           }
         }
+      } else {
+        // the analysis is switched off: the outputs are still defined
+        // by the statement
+        for (auto const &out : outputs) {
+          operator-=(out);
+        }
       }
     } else if (name == "unfreed_or_null") {
       if (crab_domain_params_man::get().region_deallocation()) {
@@ -2692,6 +2698,12 @@ public:
         } else {
           operator-=(bv);
         }
+      } else {
+        // the analysis is switched off: the outputs are still defined
+        // by the statement
+        for (auto const &out : outputs) {
+          operator-=(out);
+        }
       }
     } else if (name == "is_dereferenceable") {
       if (crab_domain_params_man::get().region_is_dereferenceable()) {
@@ -2729,6 +2741,12 @@ public:
         CRAB_LOG("region-domain-is-deref", crab::outs()
                                                << "\tRESULT=UNKNOWN\n");
         operator-=(bv);
+      } else {
+        // the analysis is switched off: the outputs are still defined
+        // by the statement
+        for (auto const &out : outputs) {
+          operator-=(out);
+        }
       }
     } else {
       // pass the intrinsics to the base domain
